@@ -3,7 +3,8 @@
 (* The reference sender delivers a multi-file session one wire unit at a   *)
 (* time; after each unit it waits until the receiver is blocked reading    *)
 (* the next byte and snapshots the destination ("freeze" events).  A trace *)
-(* ends with "done" (orderly end), "error" (stream cut at some byte; the   *)
+(* ends with "done" (orderly end), "damaged" (one bit inverted in transit), *)
+(* "error" (stream cut at some byte; the   *)
 (* snapshot is taken after the error return and connection close) or       *)
 (* "killed" (SIGKILL of the receiving process).  Every snapshot must be a  *)
 (* state of Atomic: each listed path holds its complete previous content   *)
@@ -52,6 +53,11 @@ TEnd == /\ st = "run" /\ l = Len(Tr.events) + 1
                        /\ \E x \in e.dmin..e.d : e.snap = ExpectedDst(Tr.kinds, Tr.ntoks, x)
                        /\ e.lnk \in {"old", "new"}
                        /\ e.temps = 0                                      \* CleanAfterError
+               [] e.mode = "damaged" -> \* one bit of the data segment was inverted in transit (C03 says the file fails;
+                    \* C04 says: whatever fails, no listed path is left with anything but its previous or its new content)
+                    \/ /\ e.result = "ok" /\ e.snap = AllNew /\ e.lnk = "new" /\ e.temps = 0     \* the bit did not matter
+                    \/ /\ e.result = "err"
+                       /\ WeakOK(e.snap, TotalUnits(Tr.ntoks)) /\ e.lnk \in {"old", "new"} /\ e.temps = 0
                [] e.mode = "killed" -> /\ \E x \in e.dmin..e.d : e.snap = ExpectedDst(Tr.kinds, Tr.ntoks, x)
                                        /\ e.lnk \in {"old", "new"}
                [] OTHER -> FALSE
